@@ -606,7 +606,11 @@ def verify_contract(loader, registry, con, dim_override=None, observed=False, in
                 rep.undecided.append("%s[%s]: more than %d paths" % (con.target, case, max_paths))
                 break
             V.reset_fresh()
-            path = Path(decisions, observed_refinements=observed, prove_timeout_ms=timeout_ms, degraded=degraded)
+            path = Path(decisions, observed_refinements=observed or getattr(con, "first_index_tie_rule", False),
+                        prove_timeout_ms=timeout_ms, degraded=degraded)
+            # bounded contracts over concrete structures: decide every cell of a boolean mask by
+            # forking the path instead of carrying a symbolic selection
+            path.concretize_masks = getattr(con, "concretize_masks", False)
             path.enter()
             interp = None
             con._cur_case = case
@@ -629,7 +633,7 @@ def verify_contract(loader, registry, con, dim_override=None, observed=False, in
                     rep.vacuous.append(tag + " (requires/input assumptions are contradictory)")
                 snaps = snapshot_args(args)
                 pre = freeze_args(args)
-                interp = Interp(loader, registry, path, top=con.target, inline=inline)
+                interp = Interp(loader, registry, path, top=con.target, inline=set(inline) | set(getattr(con, "always_inline", ())))
                 c.interp = interp
                 exc = None
                 result = None
